@@ -405,13 +405,15 @@ def run(ctx: F.Ctx):
             "pending; same after an earlier stamped edit; same after a page was deleted and the "
             "index followed; same after a new page was added, the last page broken and a plain "
             "reindex refused) over 18 events: edit a body, change a "
-            "todo's kind, add a ZID-less note, delete a note, move a note between pages, add a page, "
+            "todo's kind, add a ZID-less note, delete a note, move a note between pages whose header "
+            "blocks give one property different values, add a page, "
             "delete a page, rename a page, bring the vanished page back byte-identical, edit title-line tags, edit a section header, drop the "
-            "last holder of a tag, plain reindex, reindex of one explicit path, advance the day. "
+            "last holder of a tag, delete a note of a property-less page, break / repair the last page "
+            "(a plain reindex is refused while it is broken), plain reindex, reindex of one explicit path, advance the day. "
             "Each edit is enabled a bounded number of times. Every transition copies the real "
             "directory and runs the real command in a fresh process. Oracle in every state reached "
             "by a plain reindex: raw index == raw index of a fresh db create on a copy of the files, "
-            "structural invariants of M3, and 12 queries answered identically by both. Non-trivial "
+            f"structural invariants of M3, and {len(QUERIES)} queries answered identically by both. Non-trivial "
             "= judged states whose history contains at least one edit."
         ),
         "bounds": {"depth": depth, "depth_from_derived_initial_states": depth - 1, "events": EVENTS, "initial_states": 5, "frozen_day": day.isoformat()},
